@@ -100,6 +100,43 @@ func main() {
 			}
 			fmt.Println(prop, len(specs), "flow specs", len(reads), "read sets")
 		}
+	case "vssdump":
+		c := rules.NewCtx("C10", "gen")
+		sk := rules.PairSkeletons(c, "default", "share/vss/pedersen", "share/vss/rabin", map[string]string{"Aggregator": "aggregator", "Dealer": "Dealer", "Verifier": "Verifier", "Deal": "Deal", "Response": "Response", "Justification": "Justification"},
+			[][2]string{{`share/vss/(pedersen|rabin)\.`, "vss."}, {`\bAggregator\b`, "aggregator"}, {`StatusApproved`, "Approved"}})
+		var keys []string
+		for k := range sk {
+			keys = append(keys, k)
+		}
+		sort.Strings(keys)
+		same := 0
+		for _, k := range keys {
+			a, b := sk[k][0], sk[k][1]
+			am, bm := map[string]bool{}, map[string]bool{}
+			for _, x := range a {
+				am[x] = true
+			}
+			for _, x := range b {
+				bm[x] = true
+			}
+			var da, db []string
+			for _, x := range a {
+				if !bm[x] {
+					da = append(da, x)
+				}
+			}
+			for _, x := range b {
+				if !am[x] {
+					db = append(db, x)
+				}
+			}
+			if len(da)+len(db) == 0 {
+				same++
+				continue
+			}
+			fmt.Printf("== %s\n  only pedersen: %v\n  only rabin: %v\n", k, da, db)
+		}
+		fmt.Println(same, "identical of", len(keys))
 	case "sibdump":
 		c := rules.NewCtx("C01", "gen")
 		sk := rules.SiblingSkeletons(c, "default", false)
